@@ -314,7 +314,9 @@ class Printer(sympy.printing.printer.Printer):
         a = a or [sympy.S.One]
 
         # Convert terms to code
-        my_prec = precedence(expr)
+        # Note: the terms are operands of a product even if ``expr``, with the sign taken out, no longer is one
+        # (-1 * (x + y) leaves the sum x + y)
+        my_prec = PRECEDENCE['Mul']
         a_str = [self._bracket(x, my_prec) for x in a]
         b_str = [self._bracket(x, my_prec) for x in b]
 
